@@ -491,10 +491,8 @@ func (db *Backend) ListBucketVersions(
 	var match gofakes3.PrefixMatch
 
 	if page.KeyMarker != "" {
-		if !prefix.Match(page.KeyMarker, &match) {
-			// FIXME: NO idea what S3 would do here.
-			return result, gofakes3.ErrInternal
-		}
+		// The marker only says where in key order the listing resumes. It need
+		// not match the prefix: keys that do not are skipped below anyway.
 		iter.Seek(page.KeyMarker)
 	}
 
